@@ -662,8 +662,19 @@ def execNode : Nat → Node → XM Unit
       let ws := blockWrappers st.cs.tpls fr.chain name
       if ws.length == 0 then xerr "internal error: len(block_wrappers) == 0"
       else
+        -- "block" names this block while its body runs; afterwards the enclosing block again
+        let outer := fr.priv.lookup b!"block"
         modifyCur fun f => { f with priv := f.priv.set b!"block" (.blockinfo fr.id name (ws.length - 1)) }
-        execNodes fuel (ws.getD (ws.length - 1) [])
+        let restore : XM Unit := modifyCur fun f =>
+          { f with priv := match outer with
+              | some o => f.priv.set b!"block" o
+              | none => f.priv.filter (·.1 != b!"block") }
+        try
+          execNodes fuel (ws.getD (ws.length - 1) [])
+          restore
+        catch e =>
+          restore
+          throw e
     | .tagComment => pure ()
     | .tagCycle id args asName silent => do
       if args.length == 0 then xerr "integer divide by zero" .panic
